@@ -23,7 +23,8 @@ fn execute(case: &(Vec<usize>, Vec<usize>), ctx: &WorkerCtx) -> ExecResult {
         let probe = { let g = got.clone(); move || g.lock().unwrap().len() as u64 };
         let mut prev = 0;
         for &c in cuts.iter().chain(std::iter::once(&stream.len())) {
-            if c > prev { cw.peer.send(&stream[prev..c]); cw.w.settle(&mut cw.peer, &probe).await; prev = c; }
+            // (a few milliseconds pass between the pieces: on a frozen clock a wait that gives up too early would go unnoticed)
+            if c > prev { cw.peer.send(&stream[prev..c]); cw.w.settle(&mut cw.peer, &probe).await; tokio::time::advance(std::time::Duration::from_millis(5)).await; cw.w.settle(&mut cw.peer, &probe).await; prev = c; }
         }
         let frames: Vec<Vec<u8>> = got.lock().unwrap().iter().filter_map(|r| r.clone().ok()).collect();
         if frames != msgs || got.lock().unwrap().iter().any(|r| r.is_err()) {
@@ -195,12 +196,12 @@ fn readhalf_more_exec(len: usize, mode: usize, ctx: &WorkerCtx) -> ExecResult {
             let shape_ok = all.len() == 4 && all[0] == Ok(want(1)) && all[1].is_err() && all[2] == Ok(want(2)) && all[3] == Ok(want(3));
             if !shape_ok { res.violations.push(("a refused frame on the read-half path takes later frames with it".into(), json!({"refused_frame_length": len, "results": format!("{:?}", all)}))); }
         } else if mode == 5 {
-            // the peer is quiet for a minute (several times the I/O timeout), then a frame arrives in `len` pieces with no
-            // time passing in between: waiting for a frame to begin is not an I/O operation in progress
+            // the peer is quiet for a minute (several times the I/O timeout), then a frame arrives in `len` pieces two
+            // milliseconds apart: waiting for a frame to begin is not an I/O operation in progress
             for _ in 0..6 { tokio::time::advance(std::time::Duration::from_secs(10)).await; cw.w.settle(&mut cw.peer, &probe).await; }
             let f = msg(1);
             let pieces = len.max(2);
-            for k in 0..pieces { let (a, b) = (k * f.len() / pieces, (k + 1) * f.len() / pieces); cw.peer.send(&f[a..b]); cw.w.settle(&mut cw.peer, &probe).await; }
+            for k in 0..pieces { let (a, b) = (k * f.len() / pieces, (k + 1) * f.len() / pieces); cw.peer.send(&f[a..b]); cw.w.settle(&mut cw.peer, &probe).await; tokio::time::advance(std::time::Duration::from_millis(2)).await; cw.w.settle(&mut cw.peer, &probe).await; }
             cw.peer.send(&msg(2));
             cw.w.settle(&mut cw.peer, &probe).await;
             let all = got.lock().unwrap().clone();
